@@ -281,7 +281,8 @@ def rand_clip(rng, t, single=False):
         kw[n] = d
         wire[{"min_eval": "minEval", "max_eval": "maxEval", "min_period": "minPeriod",
               "max_period": "maxPeriod"}[n]] = w_date(d)
-    kw["dev_lag_unit"] = unit
+    if not (unit == "month" and rng.random() < 0.5):
+        kw["dev_lag_unit"] = unit      # else: rely on the default argument ("month")
     return kw, wire
 
 
@@ -360,6 +361,34 @@ def correspondence(ctx):
         ctx.count(f"tri/kind={desc['kind']}")
         wcells = w_cells(cells)
         ops, info = [], []
+        # SEQUENCE stream: on a share of the triangles every operation is called TWICE on the same
+        # Triangle object; the first result is modified in place (arrays overwritten, dicts and the
+        # result triangles' cell lists emptied) before the second call, and the SECOND result is the
+        # one compared with the model / Spec. State carried between calls (memoised columns, aliased
+        # caches) shows up as a wrong second answer.
+        seq = rng.random() < 0.4
+        ctx.count("stream/sequence(call twice, mutate first result)" if seq else "stream/single call")
+
+        def spoil(r):
+            if r is t:
+                return
+            if isinstance(r, np.ndarray):
+                if r.size:
+                    r[...] = -1
+            elif isinstance(r, Triangle):
+                r.cells.clear()
+            elif isinstance(r, dict):
+                for v in list(r.values()):
+                    spoil(v)
+                r.clear()
+
+        def run(fn, *a, **k):
+            res = call(fn, *a, **k)
+            if not seq:
+                return res
+            if res[0] == "ok":
+                spoil(res[1])
+            return call(fn, *a, **k)
 
         def add(op, impl, **extra):
             o = dict(op)
@@ -375,10 +404,10 @@ def correspondence(ctx):
                 ctx.count("clip/skipped-float-ambiguous-bound")
                 continue
             kw, wire = rc
-            res = call(t.clip, **kw)
+            res = run(t.clip, **kw)
             add(wire, tri_dump(res))
-            ctx.count(f"clip/unit={kw['dev_lag_unit']}")
-            ctx.count(f"clip/nbounds={len(kw) - 1}")
+            ctx.count(f"clip/unit={kw.get('dev_lag_unit', '<default>')}")
+            ctx.count(f"clip/nbounds={len([k for k in kw if k != 'dev_lag_unit'])}")
 
         # --- complementary clips / filters partition the triangle (on the implementation)
         b = date_candidates(rng, t, "evaluation_date")
@@ -418,7 +447,7 @@ def correspondence(ctx):
         p = rng.choice([0.2, 0.5, 0.8])
         keep = {id(c): rng.random() < p for c in t.cells}
         mask = [keep[id(c)] for c in t.cells]
-        f1 = call(t.filter, lambda c: keep[id(c)])
+        f1 = run(t.filter, lambda c: keep[id(c)])
         f2 = call(t.filter, lambda c: not keep[id(c)])
         add({"op": "filter", "mask": mask}, tri_dump(f1))
         if f1[0] == "ok" and f2[0] == "ok":
@@ -432,11 +461,11 @@ def correspondence(ctx):
         if not ctx.thorough and len(key_lists) > 7:
             key_lists = rng.sample(key_lists, 7)
         for ks in key_lists:
-            add({"op": "select", "keys": ks}, tri_dump(call(t.select, ks)))
+            add({"op": "select", "keys": ks}, tri_dump(run(t.select, ks)))
 
         # --- right_edge, slices
-        add({"op": "rightEdge"}, tri_dump(call(lambda: t.right_edge)))
-        st, sl = call(lambda: t.slices)
+        add({"op": "rightEdge"}, tri_dump(run(lambda: t.right_edge)))
+        st, sl = run(lambda: t.slices)
         try:
             add({"op": "slices"}, {"ok": [[w_meta(m), w_cells(v.cells)] for m, v in sl.items()]} if st == "ok" else {"err": sl})
         except (AttributeError, TypeError) as e:
@@ -466,7 +495,7 @@ def correspondence(ctx):
         if not ctx.thorough and len(key_lists) > 6:
             key_lists = rng.sample(key_lists, 6)
         for ks in key_lists:
-            st, sp = call(t.split, ks)
+            st, sp = run(t.split, ks)
             try:
                 add({"op": "split", "keys": ks},
                     {"ok": [[[w_mval(x) for x in key], w_cells(v.cells)] for key, v in sp.items()]} if st == "ok" else {"err": sp})
@@ -495,7 +524,7 @@ def correspondence(ctx):
                 c = rng.choice(t.cells)
                 pi, ei = ("d", c.period_start), ("d", c.evaluation_date)
                 mpy, mw = c.metadata, {"m": w_meta(c.metadata)}
-            st, r = call(lambda: t[idx_py(pi), idx_py(ei), mpy])
+            st, r = run(lambda: t[idx_py(pi), idx_py(ei), mpy])
             if st == "ok":
                 impl = {"ok": {"t": w_cells(r.cells)}} if isinstance(r, Triangle) else {"ok": {"c": w_cell(r)}}
             else:
@@ -505,9 +534,9 @@ def correspondence(ctx):
 
         # --- extract
         for f in fields + ["zz_unknown"]:
-            st, r = call(t.extract, f)
+            st, r = run(t.extract, f)
             add({"op": "extract", "field": f}, {"ok": [w_entry(x) for x in r]} if st == "ok" else {"err": r})
-        st, r = call(t.extract, lambda c: c.evaluation_date.toordinal())
+        st, r = run(t.extract, lambda c: c.evaluation_date.toordinal())
         add({"op": "extractOrd"}, {"ok": [int(x) for x in r]} if st == "ok" else {"err": r})
 
         reqs.append({"cells": wcells, "ops": ops})
@@ -586,7 +615,8 @@ if __name__ == "__main__":
              "triangle's own dates and lags, +-1 day, +-1 month, out of range, date.min/max; single-bound clips; "
              "complementary clip/filter pairs; mask filters; select on every subset of fields; right_edge; slices; "
              "split on every subset of detail keys; t[p, e, m] with scalar/slice/None/':'/Metadata indices; "
-             "extract}. distinct = distinct (canonical cells, operation+arguments); non-trivial = more than one cell",
+             "extract}; on 40 % of the triangles every operation is called twice on the same object with the first "
+             "result modified in place in between (sequence stream). distinct = distinct (canonical cells, operation+arguments); non-trivial = more than one cell",
         assumptions=["month lags are IEEE doubles in the implementation and exact rationals in the model: lag bounds "
                      "are the triangle's own lags (bit-identical floats) and lags +-1, kept only when the float and "
                      "the exact comparison agree on every cell of the triangle (IEEE rounding is outside the model)",
